@@ -129,12 +129,23 @@ struct Codec<E, std::enable_if_t<std::is_enum_v<E>>>
   static long long read(const E& v) { return static_cast<long long>(v); }
 };
 
+// data types spelled as raw pointers (`extern Frame $const sim::Tracked*$`): the pointee is allocated by the caller and
+// deliberately never freed (a real peer would keep it alive as long as anybody may look at it)
+template <class P>
+struct Codec<P*, void>
+{
+  using V = std::remove_const_t<P>;
+  static P* make(long long t) { return new V(Codec<V>::make(t)); }
+  static long long read(P* const& v) { return v ? Codec<V>::read(*v) : -6; }
+};
+
 // ----------------------------------------------------------------------------- contexts
 struct EvCtx
 {
   int ev;      // event index in the model table
   int side;    // 0 = outer (user side of the shell), 1 = inner (wrapped component)
   int client;  // multi-client: index of the registered client on the outer side, else -1
+  int gen = 0; // how many times the user has re-bound this handler (0 = the binding made before FinalConstruct)
 };
 
 struct HandlerPlan
